@@ -1,4 +1,4 @@
-package main
+package c11
 
 // C11 direct oracle — metamorphic whole loads on the real loader.
 //
